@@ -146,6 +146,33 @@ func run(c *mon.Ctx) {
 			}
 		}
 	})
+	// the decoder is a function of its argument whoever else is decoding at the same time
+	c.Floor("concurrent.calls", 5000)
+	c.Stream("concurrent-decoders", c.N(3, 150), func(i int, r *gen.Rand) {
+		c.Concurrent("scte35.NewSCTE35", 8, 250, r, func(q *gen.Rand) string {
+			s := ref.GenSig(q, true)
+			in := q.Slack(s.Payload())
+			x, err := scte35.NewSCTE35(in)
+			if err != nil || x == nil {
+				return fmt.Sprintf("a well-formed section was rejected: %v", err)
+			}
+			ds, ms := x.Descriptors(), s.SegDescs()
+			if x.Tier() != s.Tier || len(ds) != len(ms) || !bytes.Equal(x.Data(), s.Section()) {
+				return fmt.Sprintf("tier %#x / %d descriptors decoded, encoded tier %#x / %d descriptors (%s)", x.Tier(), len(ds), s.Tier, len(ms), s35.Shape(&s))
+			}
+			if has, t := s.CommandHasTime(); has && uint64(x.PTS()) != (t+s.PTSAdj)&(1<<33-1) {
+				return fmt.Sprintf("PTS()=%d, command time %d + pts_adjustment %d", x.PTS(), t, s.PTSAdj)
+			}
+			for k, d := range ds {
+				m := ms[k]
+				if d.EventID() != m.Event || (!m.Cancel && (byte(d.TypeID()) != m.Type || (m.UPIDType != 0x0d && !bytes.Equal(d.UPID(), m.UPID)) || len(d.MID()) != len(m.MID) || len(d.Components()) != len(m.Comps))) || d.SCTE35() != x {
+					return fmt.Sprintf("descriptor %d decoded with other values than encoded (%s)", k, s35.Shape(&s))
+				}
+			}
+			return ""
+		})
+		c.Class("concurrent-decoders")
+	})
 	// section_length is a 12-bit field: sections of 1024..4093 bytes decode like small ones
 	c.Floor("large.sections", 100)
 	c.Stream("large-sections", c.N(600, 60000), func(i int, r *gen.Rand) {
